@@ -755,6 +755,19 @@ impl CodegenContext {
                                 None => opts.target_address = opts.initial_pc,
                             }
 
+                            // The definition replaces the segment: what this pass has already put into a segment of that
+                            // name (a '.segment' that stands in front of the definition) would silently disappear
+                            if let Some(existing) = self.segments.get(&name) {
+                                if !existing.range().is_empty() {
+                                    return Err(Diagnostic::error()
+                                        .with_message(format!(
+                                            "segment '{}' is used before it is defined",
+                                            name
+                                        ))
+                                        .with_labels(vec![id.span.to_label()])
+                                        .into());
+                                }
+                            }
                             self.segments.insert(name.clone(), Segment::new(opts));
                             if self.current_segment.is_none() {
                                 self.current_segment = Some(name.clone());
